@@ -788,6 +788,14 @@ fn step(c: &mut Case, pf: &Profile)
     let h = pick_handle(c, pf);
     let (nq, nc, tainted, executed) = match h { Some(i) => (c.circs[i].nq, c.circs[i].nc, c.circs[i].tainted, c.circs[i].executed), None => (2, 2, false, false) };
     let malformed = chance(&mut c.rng, pf.malformed);
+    if pf.live && c.rng.below(7) == 0
+    {
+        // change a referenced double between building and running: the next run must see the new value
+        let cell = c.rng.below(6) as usize;
+        let v = if c.rng.coin() { PI } else { 0.0 };
+        c.poke(cell, v);
+        return;
+    }
     let r = c.rng.below(100);
     if r < 34
     {
